@@ -120,6 +120,9 @@ pub enum Event {
     Advance(u64),
     /// the next apply_chunk on node n fails (state machine error -> fatal)
     FailApply(u32),
+    /// end of a recovery closure: evaluate "a leader exists, the probe write is acknowledged,
+    /// every live voter has applied everything committed" (a pure check, changes nothing)
+    AssertRecovered(u32),
     /// timed mode: virtual time jumps to the earliest timer deadline of a live node and that
     /// node takes its turn (its tick fires)
     Tick,
@@ -315,6 +318,8 @@ pub struct NodeView {
     pub fatal: bool,
     /// membership-change entries in the log: (index, description)
     pub configs: Vec<(u64, String)>,
+    /// last_included index of the snapshot the node holds (0 = none)
+    pub snapshot_li: u64,
 }
 
 pub fn config_of(e: &Entry) -> Option<String> {
@@ -434,6 +439,7 @@ impl SimNode {
             },
             fatal: self.fatal,
             configs: entries.iter().filter_map(|e| config_of(e).map(|c| (e.index, c))).collect(),
+            snapshot_li: self.sm.snapshot_metadata().and_then(|m| m.last_included).map(|l| l.index).unwrap_or(0),
         }
     }
 }
@@ -609,6 +615,16 @@ impl Cluster {
             stuck: None,
         };
         d_engine_core::verif_clock::set(Some(0));
+        if opts.snapshot_enable {
+            // snapshot archives are real files: nothing of an earlier history may be left over
+            if let Ok(rd) = std::fs::read_dir(&c.scratch) {
+                for e in rd.flatten() {
+                    if e.file_name().to_string_lossy().starts_with("snap") {
+                        let _ = std::fs::remove_dir_all(e.path());
+                    }
+                }
+            }
+        }
         for id in ids {
             c.observers.insert(id, Arc::new(Observer::default()));
             c.incarnations.insert(id, 0);
@@ -948,6 +964,14 @@ impl Cluster {
 
     pub fn up_ids(&self) -> Vec<u32> {
         self.slots.iter().filter(|(_, s)| matches!(s, Slot::Up(_))).map(|(i, _)| *i).collect()
+    }
+
+    /// snapshot pushes in flight: (from, to)
+    pub fn pushes(&self) -> Vec<(u32, u32)> {
+        let g = self.net.0.lock().unwrap();
+        let mut v: Vec<(u32, u32)> = g.pending_push.iter().map(|p| (p.from, p.to)).collect();
+        v.sort_unstable();
+        v
     }
 
     pub fn links(&self) -> Vec<(LinkId, usize, usize, bool)> {
@@ -1319,6 +1343,9 @@ impl Cluster {
                     self.settle(id).await?;
                 }
             }
+            Event::AssertRecovered(_) => {
+                // evaluated by cluster_ext::apply_any
+            }
             Event::FailApply(id) => {
                 let n = self.node(*id).ok_or("node not up")?;
                 n.sm.fail_next_apply.store(true, Ordering::SeqCst);
@@ -1414,7 +1441,49 @@ impl Cluster {
                 }
                 self.poll_joins().await?;
             }
-            Event::JoinDeliver(_) | Event::PushDeliver(_, _) | Event::PushFail(_, _) => {
+            Event::PushDeliver(from, to) | Event::PushFail(from, to) => {
+                let push = {
+                    let mut g = self.net.0.lock().unwrap();
+                    let pos = g.pending_push.iter().position(|p| p.from == *from && p.to == *to).ok_or("no such snapshot push in flight")?;
+                    g.pending_push.remove(pos)
+                };
+                let deliver = matches!(ev, Event::PushDeliver(..)) && self.node(*to).is_some();
+                if deliver {
+                    // the whole chunk stream reaches the follower, which installs it in one turn
+                    let (ctx, crx) = tokio::sync::mpsc::channel(push.chunks.len() + 1);
+                    for c in push.chunks {
+                        let _ = ctx.try_send(c);
+                    }
+                    drop(ctx);
+                    let (tx, mut rx) = MaybeCloneOneshot::new();
+                    let sent = self.node(*to).unwrap().event_tx.try_send(InboundEvent::InstallSnapshotChunk(crx, tx)).is_ok();
+                    let mut ok = false;
+                    if sent {
+                        self.settle(*to).await?;
+                        // the install does file IO on the blocking pool
+                        for _ in 0..20 {
+                            quiesce().await;
+                            tokio::task::yield_now().await;
+                        }
+                        self.settle(*to).await?;
+                        if let Some(Ok(Ok(r))) = (&mut rx).now_or_never() {
+                            ok = r.success;
+                        }
+                    }
+                    let _ = push.reply.send(if ok {
+                        Ok(())
+                    } else {
+                        Err(d_engine_core::NetworkError::TaskBackoffFailed("snapshot rejected".into()).into())
+                    });
+                } else {
+                    let _ = push.reply.send(Err(d_engine_core::NetworkError::TaskBackoffFailed("snapshot push lost".into()).into()));
+                }
+                quiesce().await;
+                if self.node(*from).is_some() {
+                    self.settle(*from).await?;
+                }
+            }
+            Event::JoinDeliver(_) => {
                 return Err("not implemented".into());
             }
         }
@@ -1620,7 +1689,9 @@ impl Cluster {
             vec![]
         };
         let armed: Vec<u32> = self.armed_timers.iter().copied().collect();
+        let pushes = self.pushes();
         feed(&|h| {
+            pushes.hash(h);
             armed.hash(h);
             aw.iter().map(|l| (l.from, l.to)).collect::<Vec<_>>().hash(h);
             self.joining.iter().map(|j| (j.node, j.leader, j.rx.is_some())).collect::<Vec<_>>().hash(h);
